@@ -5,7 +5,7 @@ CONSTANTS
   Horizon = 9
   MaxNow = 16
   Sched = "any"
-  Weaken = "none"
+  Weakens = {"none"}
   Parts = {"timer", "ctl"}
   Heights = {0, 1, 2}
   MaxCRound = 5
@@ -18,5 +18,6 @@ INVARIANT Superseded
 INVARIANT DeadlineIsRef
 INVARIANT StaleNoChange
 PROPERTY StaleNoChangeStep
-PROPERTY CurrentBumps
+INVARIANT CurrentBumps
+PROPERTY CurrentBumpsStep
 VIEW view
